@@ -18,6 +18,7 @@ EXT = [0, 1, 2, 3]
 STRICT = {"axis-oor", "axis-repeated", "index-oob", "index-toomany", "index-masklen", "bcast-bad", "shape-mismatch", "rank-mismatch",
           "reshape-bad", "ctor-bad", "caxes-bad"}
 FORMATS = ["coo", "gcxs", "dok"]
+INT_DTYPES = ["int8", "int16", "int32", "int64", "uint8", "uint16", "uint32", "uint64"]
 
 
 # -----------------------------------------------------------------------------------------------------------------
@@ -1157,7 +1158,17 @@ def g_ctor(rng, n):
             kw = {"compressed_axes": ca}
             if shp is not None:
                 kw["shape"] = shp
-            trip = [{"a": data, "dtype": "int64"}, {"a": indices, "dtype": "int64"}, {"a": indptr, "dtype": "int64"}]
+            # the index arrays in every integer dtype that holds their values (signed / unsigned, any width, the two may differ); now and then
+            # a float dtype, which the contract rejects
+            def idt(vals):
+                ok = [d for d in INT_DTYPES if (not d.startswith("u") or all(v >= 0 for v in vals)) and all(-128 <= v <= 127 for v in vals)]
+                return str(rng.choice(ok)) if ok and rng.random() < 0.7 else "int64"
+            di, dp = idt(indices), idt(indptr)
+            if rng.random() < 0.06:
+                di = str(rng.choice(["float64", "float32"]))
+            elif rng.random() < 0.06:
+                dp = "float64"
+            trip = [{"a": data, "dtype": "int64"}, {"a": indices, "dtype": di}, {"a": indptr, "dtype": dp}]
             yield case("GCXS(triple,shape,ca)", "ctor", [], [trip], kw, "ctor", chunk="ctor")
         else:
             shp = list(rshape(rng, 0, 3))
@@ -1165,6 +1176,101 @@ def g_ctor(rng, n):
             for _ in range(int(rng.integers(0, 3))):
                 pts.append([[int(rng.integers(0, max(s, 1))) for s in shp], int(rng.integers(1, 4))])
             yield case("COO.from_iter", "ctor", [], [{"kv": pts}], {"shape": shp}, "valid", chunk="ctor")
+
+
+# -----------------------------------------------------------------------------------------------------------------
+# astronomically long single axes: indexing must cost the stored entries, not the axis
+# -----------------------------------------------------------------------------------------------------------------
+
+def long_ref(shape, entries, idx):
+    """x[idx] from the coordinate dictionary `entries` ({coordinate tuple: value}) for integers and slices [a, b, k]: -> the worker's _long_json form"""
+    sel = []
+    for j, n in enumerate(shape):
+        e = idx[j] if j < len(idx) else {"s": [None, None, None]}
+        if isinstance(e, dict):
+            sel.append(("s", range(*slice(*e["s"]).indices(n))))
+        else:
+            sel.append(("i", e + n if e < 0 else e))
+    out = {}
+    for c, v in entries.items():
+        key = []
+        for (kind, r), cj in zip(sel, c):
+            if kind == "i":
+                if cj != r:
+                    break
+            else:
+                if cj not in r:
+                    break
+                key.append(r.index(cj))
+        else:
+            out[tuple(key)] = v
+    rshape = [len(r) for kind, r in sel if kind == "s"]
+    if not rshape:
+        return {"type": "scalar", "data": out.get((), 0)}
+    keys = sorted(out)
+    return {"shape": rshape, "coords": [list(k) for k in keys], "data": [out[k] for k in keys], "fill": 0}
+
+
+# seconds for one indexing call on an astronomically long axis (measured: 50 - 400 microseconds); the pool stretches it by the slowdown of the moment
+# and confirms a miss by a retry that runs alone with three times the limit
+LONG_DEADLINE = 10.0
+
+
+def long_axis_probes(rng, full):
+    """1-d and 2-d arrays with extents 2**40 .. 2**62 holding 0, 1 or a few stored entries, indexed with slices of every sign (and an integer
+    on the short axis): every case has its own deadline (LONG_DEADLINE, confirmed by a retry with three times that) after a warm-up on a small array of the same rank and format"""
+    exts = [2 ** 40, 2 ** 62] if not full else [2 ** 40, 2 ** 48, 2 ** 56, 2 ** 62, 2 ** 62 + 12345]
+    fmts = ["coo", "dok"]
+    for n in exts:
+        for nnz in ((0, 1, 5) if full else (1, 5)):
+            pos = sorted({int(v) for v in rng.integers(2, n - 2, size=nnz)} | ({n // 3} if nnz else set()))[:max(nnz, 0)] if nnz else []
+            ent1 = {(q,): k + 1 for k, q in enumerate(pos)}
+            a_, b_ = (pos[0] - 1, pos[-1] + 2) if pos else (5, n - 7)
+            slices1 = [[1, None, None], [None, -1, None], [a_, b_, 3], [None, None, 2], [None, None, -1], [b_, a_, -2], [-5, None, None], [3, -3, None],
+                       [None, None, 2 ** 20 + 1], [-1, None, -(2 ** 30)]]
+            if not full:
+                keep = {0, 1}
+                keep |= {int(v) for v in rng.choice(range(2, len(slices1)), size=3, replace=False)}
+                slices1 = [sl for k, sl in enumerate(slices1) if k in keep]
+            for fmt in fmts:
+                arr1 = {"shape": [n], "coords": [list(c) for c in sorted(ent1)], "data": [ent1[c] for c in sorted(ent1)], "format": fmt}
+                warm = {"op": "xlong[idx]", "arrays": [{"shape": [64], "coords": [[3], [9]], "data": [1, 2], "format": fmt}], "args": [X0, [{"s": [1, None, 2]}]], "kwargs": {}}
+                for sl in slices1:
+                    idx = [{"s": sl}]
+                    yield case("xlong[idx]", "getitem-long", [arr1], [X0, idx], {}, "valid", probe=True, warm=warm, deadline=LONG_DEADLINE, value=True,
+                               expect=long_ref([n], ent1, idx), bucket=f"long:{fmt}", hang_cap=1, chunk=f"long-{fmt}-1d", touch=False)
+                # 2-d: a short axis and the long one, an integer on the short axis and a slice on the long one (and the other way round)
+                rows = 3
+                ent2 = {(int(rng.integers(0, rows)), q): k + 1 for k, q in enumerate(pos)}
+                if nnz:
+                    ent2[(1, pos[0])] = 7            # a row holding exactly one stored entry among its candidates
+                for shape2, order in (([rows, n], "short-long"), ([n, rows], "long-short")):
+                    e2 = ent2 if order == "short-long" else {(q, r): v for (r, q), v in ent2.items()}
+                    arr2 = {"shape": shape2, "coords": [list(c) for c in sorted(e2)], "data": [e2[c] for c in sorted(e2)], "format": fmt}
+                    warm2 = {"op": "xlong[idx]", "arrays": [{"shape": [4, 64] if order == "short-long" else [64, 4], "coords": [[1, 3]], "data": [1], "format": fmt}],
+                             "args": [X0, [1, {"s": [1, None, None]}] if order == "short-long" else [{"s": [1, None, None]}, 1]], "kwargs": {}}
+                    long_sl = [[a_, None, None], [None, None, 2], [None, -1, None]] if full else [[a_, None, None], [None, None, 2]]
+                    for sl in long_sl:
+                        for short in (1, {"s": [None, None, None]}, {"s": [None, None, -1]}):
+                            idx = [short, {"s": sl}] if order == "short-long" else [{"s": sl}, short]
+                            yield case("xlong[idx]", "getitem-long", [arr2], [X0, idx], {}, "valid", probe=True, warm=warm2, deadline=LONG_DEADLINE, value=True,
+                                       expect=long_ref(shape2, e2, idx), bucket=f"long:{fmt}", hang_cap=1, chunk=f"long-{fmt}-2d", touch=False)
+
+
+def scaling_probes():
+    """the same three stored entries, the same slices, extents 2**12, 2**24, 2**40: elapsed time must not follow the extent (judged in c18.leg_c)"""
+    for fmt in ("coo", "dok"):
+        for n in (2 ** 12, 2 ** 24, 2 ** 40):
+            ent = {(5,): 1, (n // 2,): 2, (n - 9,): 3}
+            arr1 = {"shape": [n], "coords": [list(c) for c in sorted(ent)], "data": [ent[c] for c in sorted(ent)], "format": fmt}
+            one = {"shape": [n], "coords": [[n // 2]], "data": [4], "format": fmt}
+            warm = {"op": "xlong[idx]", "arrays": [{"shape": [64], "coords": [[3], [9]], "data": [1, 2], "format": fmt}], "args": [X0, [{"s": [1, None, None]}]], "kwargs": {}}
+            for tag, arr_, e_ in (("3", arr1, ent), ("1", one, {(n // 2,): 4})):
+                for sl in ([1, None, None], [None, -1, None], [3, -3, 2]):
+                    idx = [{"s": sl}]
+                    yield case("xlong[idx]", "getitem-long", [arr_], [X0, idx], {}, "valid", probe=True, warm=warm, deadline=LONG_DEADLINE, value=True,
+                               expect=long_ref([n], e_, idx), bucket=f"long:{fmt}", hang_cap=1, chunk=f"scaling-{fmt}", touch=False,
+                               scaling={"fmt": fmt, "nnz": tag, "slice": sl, "extent": n})
 
 
 def caxes_arg(rng, nd):
